@@ -10,5 +10,5 @@ for l in open('/verif/properties.jsonl'):
     if d['id']==P:
         open(f'/tmp/seed-{P}.property.txt','w').write(json.dumps(d,indent=1))
 PY
-  sed "s/PROP/$P/g" /verif/tools/seed_prompt.txt > /tmp/seed-prompt-$P.txt
+  sed "s/PROP/$P/g" ${SEED_PROMPT:-/verif/tools/seed_prompt.txt} > /tmp/seed-prompt-$P.txt
 done
